@@ -193,10 +193,19 @@ mass_add_d(const struct mass_add_clo_s *clo)
 			if (UNLIKELY(clo->rd.fix) && !clo->quietp) {
 				rc = 2;
 			}
-			/* perform addition now */
-			d = dadd_add(clo->rd, st.durs, st.ndurs);
+			/* the reference date is still civil time,
+			 * time units are added to the instant,
+			 * date units to the civil date */
+			const bool only_d_p = durs_only_d_p(st.durs, st.ndurs);
 
-			if (clo->hackz == NULL && clo->fromz != NULL) {
+			d = clo->rd;
+			if (clo->hackz == NULL && clo->fromz != NULL && !only_d_p) {
+				d = dtz_forgetz(d, clo->fromz);
+			}
+			/* perform addition now */
+			d = dadd_add(d, st.durs, st.ndurs);
+
+			if (clo->hackz == NULL && clo->fromz != NULL && only_d_p) {
 				/* fixup zone */
 				d = dtz_forgetz(d, clo->fromz);
 			}
